@@ -8,11 +8,11 @@ use crate::tape::{fnv, Tape};
 use aws_smt_strings::smt_regular_expressions as w;
 
 /// SMT-LIB str.replace_re from the membership matrix m (m[i][j] <=> s[i..j] in L)
-fn ref_replace(s: &[u32], t: &[u32], m: &crate::prog::Mat) -> Vec<u32> {
+fn ref_replace(s: &[u32], t: &[u32], m: &dyn Fn(usize, usize) -> bool) -> Vec<u32> {
     let n = s.len();
     for i in 0..=n {
         for j in i..=n {
-            if m.get(i, j) {
+            if m(i, j) {
                 let mut v = s[..i].to_vec();
                 v.extend_from_slice(t);
                 v.extend_from_slice(&s[j..]);
@@ -24,7 +24,7 @@ fn ref_replace(s: &[u32], t: &[u32], m: &crate::prog::Mat) -> Vec<u32> {
 }
 
 /// SMT-LIB str.replace_re_all: leftmost shortest NON-EMPTY matches, left to right
-fn ref_replace_all(s: &[u32], t: &[u32], m: &crate::prog::Mat) -> (Vec<u32>, usize) {
+fn ref_replace_all(s: &[u32], t: &[u32], m: &dyn Fn(usize, usize) -> bool) -> (Vec<u32>, usize) {
     let n = s.len();
     let mut out = Vec::new();
     let mut p = 0;
@@ -32,7 +32,7 @@ fn ref_replace_all(s: &[u32], t: &[u32], m: &crate::prog::Mat) -> (Vec<u32>, usi
     'scan: while p <= n {
         for i in p..n {
             for j in i + 1..=n {
-                if m.get(i, j) {
+                if m(i, j) {
                     out.extend_from_slice(&s[p..i]);
                     out.extend_from_slice(t);
                     p = j;
@@ -52,7 +52,28 @@ pub fn run(tape: &[u8], cx: &Cx) -> Outcome {
     let mut t = Tape::new(ta);
     let mut tp = Tape::new(tb);
     let cfg = ProgCfg { tiny_alphabet: true, max_ins: 8, small_bound: 3, ..ProgCfg::default() };
-    let prog = Prog::decode(&mut tp, &cfg);
+    let mut prog = Prog::decode(&mut tp, &cfg);
+    // a sixth of the patterns end in nested alternatives of one word: w | w[1..n-1] | w[2..n-2] | ...
+    // (several candidate matches, each starting later and ending earlier than the previous one)
+    let mut nested_word: Option<Vec<u32>> = None;
+    if tp.bool_p(42) {
+        let len = 4 + tp.choose(4);
+        let w: Vec<u32> = (0..len).map(|_| prog.atoms.pick_landmark(&mut tp)).collect();
+        let mut alts = Vec::new();
+        let mut k = 0;
+        while 2 * k < len {
+            prog.ins.push(Ins::Str(w[k..len - k].to_vec()));
+            alts.push(prog.ins.len() - 1);
+            k += 1;
+        }
+        // the order of the alternatives must not matter
+        if tp.flag() {
+            alts.reverse();
+        }
+        prog.ins.push(Ins::UnionList(alts));
+        nested_word = Some(w);
+    }
+    let prog = prog;
     // subjects over the atom representatives, biased to the landmarks so that matches are frequent
     let nsub = 1 + t.choose(3);
     let gen = |t: &mut Tape, max: usize| -> Vec<u32> {
@@ -70,7 +91,34 @@ pub fn run(tape: &[u8], cx: &Cx) -> Outcome {
             })
             .collect()
     };
-    let subjects: Vec<Vec<u32>> = (0..nsub).map(|_| gen(&mut t, 8)).collect();
+    let mut subjects: Vec<Vec<u32>> = (0..nsub).map(|_| gen(&mut t, 8)).collect();
+    if let Some(w) = &nested_word {
+        let mut s2 = gen(&mut t, 3);
+        s2.extend(w);
+        s2.extend(gen(&mut t, 3));
+        subjects.push(s2);
+    }
+    // an eighth of the cases: one long subject (a short block repeated past 256 characters, with a few
+    // perturbations), judged by the reference DFA instead of the cubic DP matcher
+    let mut long_subject = false;
+    if t.bool_p(32) {
+        let block = gen(&mut t, 3);
+        if !block.is_empty() {
+            let target = 250 + t.choose(90);
+            let mut s2: Vec<u32> = Vec::with_capacity(target + 8);
+            s2.extend(gen(&mut t, 2));
+            while s2.len() < target {
+                s2.extend(&block);
+            }
+            for _ in 0..t.choose(4) {
+                let k = t.choose(s2.len());
+                s2[k] = prog.atoms.pick_char(&mut t);
+            }
+            s2.extend(gen(&mut t, 3));
+            subjects.push(s2);
+            long_subject = true;
+        }
+    }
     let repl = gen(&mut t, 3);
     let mut o = Outcome::default();
     o.digest = fnv(format!("{:?}{:?}{:?}{:?}", prog.atoms.landmarks, prog.ins, subjects, repl).as_bytes());
@@ -112,8 +160,38 @@ pub fn run(tape: &[u8], cx: &Cx) -> Outcome {
             return o;
         }
     };
+    let dfas = if long_subject { prog.dfas().ok() } else { None };
     for (s, (a1, b1, a2, b2)) in subjects.iter().zip(rows.iter()) {
-        let m = &prog.dp(s)[last];
+        // membership of every substring: DP matrix for short subjects, runs of the reference DFA for long ones
+        let n = s.len();
+        let table: Vec<Vec<bool>> = if n > 40 {
+            let d = match &dfas {
+                Some(d) => &d[last],
+                None => {
+                    o.tag("long-subject-skipped");
+                    continue;
+                }
+            };
+            o.tag("long-subject");
+            let wa = prog.word_atoms(s);
+            (0..=n)
+                .map(|i| {
+                    let mut row = vec![false; n + 1];
+                    let mut q = d.start;
+                    row[i] = d.is_final(q);
+                    for j in i..n {
+                        q = d.step(q, wa[j]);
+                        row[j + 1] = d.is_final(q);
+                    }
+                    row
+                })
+                .collect()
+        } else {
+            let mat = &prog.dp(s)[last];
+            (0..=n).map(|i| (0..=n).map(|j| j >= i && mat.get(i, j)).collect()).collect()
+        };
+        let m = |i: usize, j: usize| table[i][j];
+        let m = &m;
         o.evals += 2;
         let exp_a = ref_replace(s, &repl, m);
         let (exp_b, count) = ref_replace_all(s, &repl, m);
@@ -130,13 +208,12 @@ pub fn run(tape: &[u8], cx: &Cx) -> Outcome {
             return o;
         }
         // classification
-        let n = s.len();
-        let any_match = (0..=n).any(|i| (i..=n).any(|j| m.get(i, j)));
+        let any_match = (0..=n).any(|i| (i..=n).any(|j| m(i, j)));
         if any_match {
             o.tag("match-exists");
             // several candidate lengths at the chosen start
-            let start = (0..=n).find(|&i| (i..=n).any(|j| m.get(i, j))).unwrap();
-            let lens = (start..=n).filter(|&j| m.get(start, j)).count();
+            let start = (0..=n).find(|&i| (i..=n).any(|j| m(i, j))).unwrap();
+            let lens = (start..=n).filter(|&j| m(start, j)).count();
             if nullable || lens >= 2 || count >= 2 {
                 o.nontrivial = true;
             }
@@ -153,6 +230,9 @@ pub fn run(tape: &[u8], cx: &Cx) -> Outcome {
     }
     if nullable {
         o.tag("nullable-pattern");
+    }
+    if nested_word.is_some() {
+        o.tag("nested-alternatives");
     }
     if prog.has(|i| matches!(i, Ins::Complement(_))) {
         o.tag("has-complement");
